@@ -7,8 +7,12 @@ import (
 	"sync"
 	"time"
 
+	"github.com/samaritan-proxy/samaritan/host"
+
 	nd "github.com/samaritan-proxy/samaritan/vfnd"
 )
+
+func hostNew(addr string) *host.Host { return host.New(addr) }
 
 // vfServer is a backend that can be made unreachable, restarted and made to drop its
 // connections. Under the executor net.DialTimeout is replaced by vfServer.dial, which hands out
@@ -181,5 +185,43 @@ func VfC07_RefreshTrigger() {
 	if redirectDuring || !ok {
 		nd.Cover("another-round-pending")
 		nd.Assert(len(u.slotsRefreshCh) == 1, "a redirection during a refresh, or a failed refresh, leaves another refresh round pending")
+	}
+}
+
+// VfC09_UpstreamStop: stopping the Redis upstream returns also while a backend is unresponsive
+// (it accepted the connection but never answers, e.g. the proxy's own CLUSTER NODES request), and
+// afterwards every backend connection is closed and no goroutine of the upstream remains.
+func VfC09_UpstreamStop() {
+	nd.ConcreteClock(true)
+	srv := vfNewServer()
+	srv.setUp(true)
+	silent := nd.Bool("backend-silent")
+	if nd.Symbolic() {
+		nd.Replace("net.DialTimeout", func(network, address string, timeout time.Duration) (net.Conn, error) {
+			c, err := srv.dial(network, address, timeout)
+			if err == nil {
+				c.(*vfBackend).silent = silent
+			}
+			return c, err
+		})
+	}
+	u, _ := vfNewUpstream(nil)
+	u.hosts.Add(hostNew(srv.addr))
+	stopped, served := false, false
+	go func() { u.Serve(); served = true }()
+	nd.Quiesce() // the refresh loop has asked a seed host for CLUSTER NODES
+	nd.Pause()
+	go func() { u.Stop(); stopped = true }()
+	nd.PanicLabel("upstream-stop")
+	nd.Quiesce()
+	nd.Class("refresh-waits-forever-for-a-silent-backend", !stopped && silent)
+	nd.Assert(stopped, "stopping the upstream returns, also while a backend is unresponsive")
+	if stopped {
+		nd.Assert(served, "the upstream's serving goroutine ends")
+		for _, b := range srv.conns {
+			nd.Assert(b.isClosed, "every upstream connection is closed after stop")
+		}
+		nd.Assert(nd.AllFinished(), "no goroutine of the upstream remains")
+		nd.Cover("stopped")
 	}
 }
